@@ -416,23 +416,59 @@ def structured_pairs(ctx):
     add("identical-70k", [["rand", 4, 70 * K]], [["rand", 4, 70 * K]])
     add("identical-200k-text", [["text", 5, 6000]], [["text", 5, 6000]])
     add("insert-300", [["rep", 65, 10]], [["rand", 6, 300]])
+    for n in (126, 127, 128, 129, 254, 255, 256, 381, 382):     # literal runs around the 127-byte insert limit
+        add(f"insert-{n}", [["rep", 65, 10]], [["rand", 20 + n, n]])
+    for n in (65535, 65536, 65537, 131070, 131071):             # common runs around the 0xFFFF copy limit
+        add(f"run-{n}", [["rep", 0, n], ["hex", "07"]], [["hex", "09"], ["rep", 0, n]])
     add("run-70k-zero", [["rep", 0, 70 * K]], [["rep", 0, 70 * K], ["hex", "01"]])
-    add("prefix-140k", [["rand", 7, 140 * K], ["rand", 8, 100]], [["rand", 7, 140 * K], ["rand", 9, 50]])
+    slow_py = MODES if not ctx.quick else ("rs",)      # SequenceMatcher needs >10 s on these
+    add("prefix-140k", [["rand", 7, 140 * K], ["rand", 8, 100]], [["rand", 7, 140 * K], ["rand", 9, 50]], slow_py)
     add("suffix-66k-off1", [["hex", "ff"], ["rand", 10, 66 * K]], [["rand", 10, 66 * K]])
     add("off-2byte", [["rep", 0, 300], ["rand", 11, 200]], [["rand", 11, 200]])
     add("off-3byte", [["rep", 0, 70 * K], ["rand", 12, 200]], [["rand", 12, 200]])
     add("middle-edit-130k", [["rand", 13, 65 * K], ["rand", 14, 10], ["rand", 15, 65 * K]],
-        [["rand", 13, 65 * K], ["rand", 16, 12], ["rand", 15, 65 * K]])
+        [["rand", 13, 65 * K], ["rand", 16, 12], ["rand", 15, 65 * K]], slow_py)
+    add("middle-edit-zero-runs", [["rep", 0, 66 * K], ["rand", 14, 10], ["rep", 1, 66 * K]],
+        [["rep", 0, 66 * K], ["rand", 16, 12], ["rep", 1, 66 * K]])
     add("text-edit", [["text", 17, 400]], [["text", 17, 400], ["text", 18, 3]])
     # offsets needing 4 bytes: 16 MiB of zeros, then a tail that is the target (Rust: fast common-suffix
     # path; Python's SequenceMatcher needs ~10 s for it, thorough tier only)
-    add("off-4byte", [["rep", 0, (1 << 24) + 5], ["rand", 19, 120]], [["rand", 19, 120]],
-        MODES if not ctx.quick else ("rs",))
+    add("off-4byte", [["rep", 0, (1 << 24) + 5], ["rand", 19, 120]], [["rand", 19, 120]], slow_py)
     return P
 
 
-def git_encoder(ctx, pairs):
-    """C git as encoder: store base/target blobs, let pack-objects deltify, read the deltas back.
+def git_blobs(ctx, n):
+    """Blob families for C git's encoder: texts with line edits (git only deltifies objects >= 50 bytes
+    and only when the delta pays), plus large blobs whose common runs exceed 64 KiB (git then emits
+    copy ops of 0x10000 bytes, encoded with size 0)."""
+    rng = ctx.rng
+    out = []
+    for i in range(n):
+        lines = D.blob([["text", 1000 + i, rng.randint(4, 200)]]).splitlines(True)
+        fam = [b"".join(lines)]
+        for _ in range(rng.randint(1, 3)):
+            cur = list(lines)
+            for _ in range(rng.randint(1, 4)):
+                pos = rng.randrange(len(cur) + 1)
+                op = rng.randrange(3)
+                if op == 0:
+                    cur[pos:pos] = [b"new line %d\n" % rng.randrange(1000)] * rng.randint(1, 3)
+                elif op == 1 and cur:
+                    del cur[pos % len(cur):pos % len(cur) + rng.randint(1, 5)]
+                elif cur:
+                    cur[pos % len(cur)] = rng.randbytes(rng.randint(1, 40)) + b"\n"
+            fam.append(b"".join(cur))
+        out.append(fam)
+    K = 1024
+    big = D.blob([["rand", 77, 200 * K]])
+    out.append([big, big[:100 * K] + b"<edit>" + big[100 * K:], big[5:], big + b"tail"])
+    z = D.blob([["rep", 0, 70 * K], ["rand", 78, 300]])
+    out.append([z, z[:-1] + b"x", b"y" + z])
+    return out
+
+
+def git_encoder(ctx, families):
+    """C git as encoder: store the blobs, let pack-objects deltify, read the deltas back.
     -> list of (base bytes, target bytes, delta bytes)."""
     d = ctx.tmpdir("gitenc")
     repo = os.path.join(d, "r.git")
@@ -445,21 +481,19 @@ def git_encoder(ctx, pairs):
         return p.stdout
 
     subprocess.run(["git", "init", "-q", "--bare", repo], check=True, env=env, capture_output=True)
-    files, lines = [], []
-    for i, (b, t) in enumerate(pairs):
-        for tag, data in (("b", b), ("t", t)):
-            p = os.path.join(d, f"{i}{tag}")
+    files, names, blobs = [], [], []
+    for i, fam in enumerate(families):
+        for k, data in enumerate(fam):
+            p = os.path.join(d, f"{i}_{k}")
             with open(p, "wb") as f:
                 f.write(data)
             files.append(p)
+            names.append(f"f{i}")
+            blobs.append(data)
     shas = git("hash-object", "-w", "--stdin-paths", input="\n".join(files).encode()).decode().split()
-    content = {}
-    for i, (b, t) in enumerate(pairs):
-        content[shas[2 * i]] = b
-        content[shas[2 * i + 1]] = t
-        lines.append(f"{shas[2 * i]} f{i}")
-        lines.append(f"{shas[2 * i + 1]} f{i}")
-    pack = git("pack-objects", "--stdout", "--window=4", "--depth=10", "--delta-base-offset", "-q",
+    content = dict(zip(shas, blobs))
+    lines = [f"{s} {n}" for s, n in zip(shas, names)]
+    pack = git("pack-objects", "--stdout", "--window=6", "--depth=10", "--delta-base-offset", "-q",
                input=("\n".join(lines) + "\n").encode())
     ppath = os.path.join(d, "p.pack")
     with open(ppath, "wb") as f:
@@ -598,6 +632,7 @@ def phase_roundtrip(ctx, fnd):
     for name, b, t, modes in struct:
         pairs.append((f"x-{name}", b, t, modes, "structured"))
     pinfo = {p[0]: p for p in pairs}
+    ctx.log(f"roundtrip: {len(pairs)} pairs")
     # ---- real encoders (R: TLC pairs -> code; plus the wider pairs)
     encd = ctx.tmpdir("enc")
     jobs = []
@@ -642,23 +677,18 @@ def phase_roundtrip(ctx, fnd):
                     continue
                 deltas.append(Rec(f"{m}:{pid}", m, pid, b, t, bytes.fromhex(o["hex"])))
     shutil.rmtree(encd, ignore_errors=True)
+    ctx.log(f"roundtrip: {len(deltas)} deltas from the dulwich encoders")
     # ---- reference encoder's deltas (spec -> code for the decoders) and C git as encoder
     for i, (b, t, d) in enumerate(ref_deltas):
         deltas.append(Rec(f"ref:{i}", "ref", None, [["hex", b.hex()]], [["hex", t.hex()]], d, b, t))
     if git_available():
-        gp = [(b, t) for b, t in hyp[:ctx.pick(120, 1200)] if b and t]
-        for name, b, t, _ in struct:
-            bb, tt = D.blob(b), D.blob(t)
-            if bb and tt and len(bb) < (1 << 22):
-                gp.append((bb, tt))
-                # git only deltifies when it pays; a near-copy of the base makes it do so
-                gp.append((bb, bb[: len(bb) // 2] + b"<edit>" + bb[len(bb) // 2:]))
-        gd = git_encoder(ctx, gp)
+        gd = git_encoder(ctx, git_blobs(ctx, ctx.pick(120, 1500)))
         ctx.cov["git_encoder_deltas"] = len(gd)
         for i, (b, t, d) in enumerate(gd):
             deltas.append(Rec(f"git:{i}", "git", None, [["hex", b.hex()]], [["hex", t.hex()]], d, b, t))
     else:
         ctx.assumptions.append("git not available: C git neither as encoder nor as decoder")
+    ctx.log(f"roundtrip: {len(deltas)} deltas with reference and git encoders")
     # ---- every decoder on every delta
     dcases = []
     for rec in deltas:
@@ -667,10 +697,12 @@ def phase_roundtrip(ctx, fnd):
         dcases.append({"id": rec.did, "base": rec.brecipe, "delta": rec.delta.hex(), "iso": len(b) > 4096,
                        "keep_hex": (1 << 16) if small else 0})
     obs = run_case_jobs(ctx, "cases", dcases, 5)
+    ctx.log("roundtrip: dulwich decoders done")
     gitres = {}
     if git_available():
         items = [(rec.did, rec.bt()[0], rec.delta) for rec in deltas if rec.enc != "git" and len(rec.delta) >= 4]
         gitres = git_decode_batch(ctx, items)
+    ctx.log("roundtrip: git decoder done")
     # ---- TLC judges every execution
     traces = []
     for n, rec in enumerate(deltas, 1):
@@ -692,6 +724,7 @@ def phase_roundtrip(ctx, fnd):
         traces.append({"tid": n, "kind": "rt", "blen": len(b), "delta": list(d), "full": full,
                        "base": list(b) if full else [], "target": list(t) if full else [], "obs": ob})
     verdicts = tlc_traces(ctx, traces, "roundtrip")
+    ctx.log("roundtrip: TLC verdicts done")
     pairings = {}
     for n, rec in enumerate(deltas, 1):
         b, t = rec.bt()
